@@ -114,7 +114,7 @@ def _enumerate_cause_items(rep, prefix, uni, axioms, mod, SELF, CAUSE, STRAT):
         rep.add(f'{prefix}.enumerate_cause_items.post.nonO1_enumerates.path{i}', r.status, time=r.time, backend=r.backend, where='other strategies enumerate the whole pith (linear by design)')
     rep.functions += ['beartype/_check/cls/logic/logcls.py:HintLogicABC.enumerate_cause_items', 'logcls._get_cause_enumerator_item_sequence', 'logcls._get_cause_enumerator_item_reiterable', 'logcls._get_cause_enumerator_item_collection']
 
-def add_finders(rep, prefix):
+def add_finders(rep, prefix, o1_cost=False):
     """C10 on the explanation path: the cause finders touch a pith's contents only where the checker did - `len()` only on an established
     Sized pith, iteration (the enumerator / items()) only on an established Collection / Mapping - so one-shot iterables next to the
     culprit are neither sized nor consumed while a rejection is described.  Function mode on the real finders; the leading `assert`
@@ -155,12 +155,13 @@ def add_finders(rep, prefix):
         ex = Exec(uni, dict(mod.__dict__), call_model=cm, name=name); ex.fields_mode = True
         ex.method_names = {'enumerate_cause_items', 'permute_cause', 'find_cause', 'sanify_hint_child', 'items', 'values', 'keys'}
         # callee contract of find_cause_type_instance_origin (ASSUMED): no shallow cause <=> the pith is an instance of the hint's origin class
-        pre = [z3.Implies(z3.Select(F('cause_str_or_none'), SHALLOW) == NONE, M.inst(PITH, uni.const(origin_cls))) if origin_cls is not None else z3.BoolVal(True),
+        STRAT_ = z3.Select(F('strategy'), z3.Select(F('conf'), CAUSE))
+        pre = ([STRAT_ == uni.const(BeartypeStrategy.O1)] if o1_cost else []) + [z3.Implies(z3.Select(F('cause_str_or_none'), SHALLOW) == NONE, M.inst(PITH, uni.const(origin_cls))) if origin_cls is not None else z3.BoolVal(True),
                M.inst(CHILDS, uni.const(tuple)), M.len_(CHILDS) >= n_childs, M.inst(z3.Select(F('conf'), CAUSE), uni.const(object))]
         outs = ex.exec_block(body, St((('cause', VObj(CAUSE)),), tuple(pre)))
         pr = discharge.Prover(uni.axioms())
         n = 0
-        for ob in ex.obls:
+        for ob in ([] if o1_cost else ex.obls):
             r = pr.prove(list(ob.pc), ob.goal); n += 1
             rep.add(f'{prefix}.{name}.{ob.kind}#{ob.name.rsplit(".", 1)[-1]}', r.status, time=r.time, backend=r.backend, where=ob.where, reason=r.reason)
         # frame: effects on the pith itself are len / isinstance / the guarded iteration only
@@ -173,8 +174,21 @@ def add_finders(rep, prefix):
                     need_cls = cabc.Mapping if op in ('view_items', 'iterate_items') else cabc.Collection
                     r = pr.prove(list(s_.pc), M.inst(PITH, uni.const(need_cls)))
                     rep.add(f'{prefix}.{name}.effect.{op}.path{paths}', r.status, time=r.time, backend=r.backend, where=f'{op} on the pith only under an established {need_cls.__name__}')
+        if o1_cost:
+            # constant cost of the explanation path: under the O1 strategy the finder takes ONE item (pair) from the pith - by next(iter(...)) - and never loops over it
+            k_ = 0
+            for kind, s_, v_ in outs:
+                k_ += 1
+                loops = [e for e in s_.effects if e[0] in ('iterate_items', 'iterate_all', 'enumerate') and e[1] is not None]
+                nexts = [e for e in s_.effects if e[0] == 'next']
+                rep.add(f'{prefix}.{name}.cost.o1_takes_one_item.path{k_}', 'proved' if (not loops and len(nexts) <= 1) else 'refuted', backend='structural',
+                        where=f'under the constant-time strategy: {len(nexts)} next() calls, {len(loops)} whole-container loops ({[e[0] for e in loops][:3]}) while describing a rejection: at most one item / pair is read whatever the size')
+            return
         rep.add(f'{prefix}.{name}.paths', 'proved' if paths and n else 'refuted', backend='structural', where=f'{paths} paths, {n} definedness / precondition obligations (zero would be vacuous)')
         rep.functions.append(f'{path}:{qual} (leading asserts dropped)')
+    if o1_cost:
+        run('beartype/_check/error/_pep/pep484585/errpep484585mapping.py', 'find_cause_pep484585_mapping', cabc.Mapping, 2)
+        return
     run('beartype/_check/error/_pep/pep484585/errpep484585container.py', 'find_cause_pep484585_container_args_1', None, 1)
     run('beartype/_check/error/_pep/pep484585/errpep484585container.py', 'find_cause_pep484585_tuple_fixed', tuple, 0)
     run('beartype/_check/error/_pep/pep484585/errpep484585mapping.py', 'find_cause_pep484585_mapping', cabc.Mapping, 2)
@@ -323,6 +337,51 @@ def add_explain_bounded(rep, prefix):
                 solver_output='bounded run-time contract on the real API (not a proof)', replay=dict(reproduced=True, detail=f'{entry} check of {o} against {h}: {out}; before {b} after {a}'[:400]), replay_script=script)
     rep.bounded.append(dict(kind='explanation path leaves one-shot / auto-vivifying siblings untouched (bounded stand-in, NOT counted as proved)', scenarios=len(res), failing=bad,
                             bound=f'{len(EXPLAIN_SCENARIOS)} hint/object scenarios x 2 entry points, constant-time strategy, forced draw 1'))
+
+MAPCOST_SRC = """
+import sys, collections
+from typing import Any, Mapping
+from beartype.door import die_if_unbearable
+from beartype import beartype
+from beartype.roar import BeartypeException
+READS = [0]
+class CountingDict(dict):
+    def _count(self, it):
+        for x in it:
+            READS[0] += 1; yield x
+    def items(self): return self._count(dict.items(self))
+    def keys(self): return self._count(dict.keys(self))
+    def values(self): return self._count(dict.values(self))
+    def __iter__(self): return self._count(dict.__iter__(self))
+bad = []
+for hint in (tuple[dict[str, Any], int], tuple[dict[str, int], int], tuple[Mapping[str, object], int], tuple[dict[Any, int], int], list[dict[str, Any]]):
+    counts = []
+    for n in (10, 4000):
+        d = CountingDict((str(i), i) for i in range(n)); READS[0] = 0
+        obj = (d, 'the culprit') if 'tuple' in repr(hint) else [d, 'the culprit']
+        try: die_if_unbearable(obj, hint)
+        except BeartypeException: pass
+        counts.append(READS[0])
+    if counts[1] > counts[0] + 2: bad.append(f'{hint}: describing a rejection next to a conforming mapping read {counts[0]} items of a 10-item mapping and {counts[1]} of a 4000-item one')
+print(bad[:3]); sys.exit(1 if bad else 0)
+"""
+def add_mapping_cost_bounded(rep, prefix):
+    """bounded (NOT counted as proved): item reads of a conforming mapping visited while a rejection elsewhere is described do not grow with its size (constant-time strategy)"""
+    import subprocess, sys, os
+    from pyvc import REPO
+    env = dict(os.environ); env['PYTHONPATH'] = REPO
+    p = subprocess.run([sys.executable, '-c', MAPCOST_SRC], capture_output=True, text=True, timeout=180, env=env, cwd='/')
+    if p.returncode not in (0, 1) or (p.returncode == 1 and not p.stdout.strip().startswith('[')): rep.error(f'{prefix} mapping cost harness: ' + (p.stdout + p.stderr)[-600:]); return
+    if p.returncode == 1:
+        rep.add(f'{prefix}.bounded.mapping_reads_do_not_grow', 'refuted', backend='runtime-contract', bounded=True, where=p.stdout.strip()[-400:], solver_output='bounded run-time contract in a fresh interpreter (not a proof)',
+                replay=dict(kind='C09', reproduced=True, detail=p.stdout.strip()[-300:]), replay_script=f"import subprocess\nenv = dict(os.environ); env['PYTHONPATH'] = os.environ.get('VERIF_REPO', {REPO!r})\np = subprocess.run([sys.executable, '-c', {MAPCOST_SRC!r}], env=env, cwd='/')\nsys.exit(p.returncode)\n")
+    rep.bounded.append(dict(kind='explanation path: reads of a conforming mapping next to the culprit at sizes 10 and 4000 (bounded stand-in, NOT counted as proved)', scenarios=5, failing=int(p.returncode == 1)))
+
+def add_finders_o1(rep, prefix):
+    try: add_finders(rep, prefix, True)
+    except Exception as e:
+        rep.extra['errpath_mapping_o1_note'] = f'function-mode cost obligation on the mapping finder not applicable to the current text ({type(e).__name__}: {str(e)[:120]}); the bounded read count stands in'
+    add_mapping_cost_bounded(rep, prefix)
 
 def safe(fn, rep, *a):
     try: fn(rep, *a)
